@@ -387,6 +387,10 @@ func (b *Billet) GetFromStore(h util.Uint256) (Node, error) {
 		return nil, r.Err
 	}
 
+	if err = checkStoredNodeType(n.Node); err != nil {
+		return nil, err
+	}
+
 	if b.mode.RC() {
 		data = data[:len(data)-5]
 	}
